@@ -22,6 +22,8 @@ import (
 	"strings"
 	"time"
 
+	"github.com/advancedclimatesystems/gonnx/verifsim"
+
 	"verifsim/callsim"
 	"verifsim/evid"
 )
@@ -570,6 +572,25 @@ func writeEvidence(cfg workerCfg, eng engine, st *evid.Stats, wall float64, nvio
 	}
 	if len(st.Hashes2) > 0 {
 		cov["distinct_interleavings"] = evid.Distinct(st.Hashes2)
+	}
+	if len(st.Sites) > 0 && verifsim.NSites > 0 {
+		seen := make([]bool, verifsim.NSites)
+		n := 0
+		for _, i := range st.Sites {
+			if int(i) < len(seen) && !seen[i] {
+				seen[i] = true
+				n++
+			}
+		}
+		var missed []string
+		for i, v := range seen {
+			if !v && i < len(verifsim.SiteNames) {
+				missed = append(missed, verifsim.SiteNames[i])
+			}
+		}
+		cov["statements_instrumented"] = verifsim.NSites
+		cov["statements_executed_under_simulation"] = n
+		cov["statements_never_executed"] = missed
 	}
 	if m.Exhaustive != "" {
 		cov["exhaustive_part"] = m.Exhaustive
